@@ -124,6 +124,34 @@ def h_relation(T, L, P, thorough):
     return fn
 
 
+def h_sequence(T, L, P):
+    """Anomalies are computed per request: a whole-array request followed by a
+    score (what the driver does when it derives default thresholds) gives the
+    same score as on a fresh dataset."""
+    def fn(S):
+        data = load.modules["verif.data"]
+        metric = load.modules["verif.metric"]
+        f = load.modules["verif.field"]
+        ax = load.modules["verif.axis"]
+        ctype = ["subtract", "divide"][S.choose("clim_type", 2)]
+        inputs, clim, store, cstore = build(S, 1, T, L, P, False)
+        D = data.Data(inputs, clim=clim, clim_type=ctype)
+        inputs2, clim2, _, _ = build(S, 1, T, L, P, False)      # same symbols, fresh objects
+        Dfresh = data.Data(inputs2, clim=clim2, clim_type=ctype)
+        first = [f.Obs(), f.Fcst(), [f.Obs(), f.Fcst()]][S.choose("first", 3)]
+        D.get_scores(first, 0)                                   # default axis: the whole 3-D array
+        name = ["Mae", "Bias"][S.choose("metric", 2)]
+        a = getattr(metric, name)().compute(D, 0, ax.No(), None)[0]
+        b = getattr(metric, name)().compute(Dfresh, 0, ax.No(), None)[0]
+        S.observe("score", a)
+        S.prove("anomaly-score-independent-of-earlier-whole-array-request", S.same(a, b), twin=S.same(a, b + 1),
+                detail="%s/%s" % (name, ctype))
+        again = D.get_scores(f.Obs(), 0)
+        fresh = Dfresh.get_scores(f.Obs(), 0)
+        S.prove("anomalies-not-applied-twice", S.same_arrays(again, fresh))
+    return fn
+
+
 def harnesses(tier):
     thorough = tier == "thorough"
     T, L, P = (2, 2, 2) if thorough else (2, 1, 2)
@@ -131,4 +159,5 @@ def harnesses(tier):
         Harness("anomaly.plain", h_anomaly(2, T, L, P, False), "2 inputs + climatology, subtract/divide, axis All"),
         Harness("anomaly.coverage", h_anomaly(1, T, 1, P, True), "climatology in another order with extra entries"),
         Harness("relation", h_relation(T, 1, P, thorough), "-c X  vs  X as additional input"),
+        Harness("sequence", h_sequence(2, 1, 1), "whole-array request, then a score, vs a fresh dataset"),
     ]
